@@ -194,6 +194,8 @@ def check_get_data(repo, rep, mod):
         m = ci.methods.get('get_data')
         if m is None:
             raise AnalysisError('anchor vanished: %s.get_data' % cname)
+        # the walk may have been moved into a helper get_data ends with
+        m = norm.inline_tail_calls(repo, m)
         a = m.node.args
         names = [x.arg for x in a.args]
         defaults = dict(zip(names[len(names) - len(a.defaults):],
